@@ -35,6 +35,10 @@
      Reader      handleNewStream / handlePeerDead: blocked in Read until the host closes
                  the stream; then select{incoming<-, ctx.Done}
      Sweeper     seen-cache background goroutine, stopped by the loop's cleanup
+     Retry       announceRetry: time.Sleep, then select{eval<-, ctx.Done} (BareRetry = seeded fault)
+     Direct,     the goroutines queueing direct peers: time.Sleep, then sends on gs.connect - BARE in the
+     Connector   code as found (D27, BareSendConnect); the connector select{<-gs.connect, ctx.Done}
+                 (Reader with CheckThenActIncoming = seeded fault: ctx.Err() check, then a bare send)
      Cancel      the constructor's context is cancelled, at any point
      CloseStreams the host closes the streams, some time after the cancellation
 
@@ -64,6 +68,10 @@ CONSTANTS NConc,                  \* call slots that may start at any time
           BareSendDiscover,       \* TRUE = as found (D10)
           UnbufferedSelRecvReply, \* FALSE in the code
           BareSendMsg,            \* FALSE in the code; TRUE = sendMsgBlocking without its ctx.Done arm (seeded fault)
+          BareRetry,              \* FALSE in the code; TRUE = announceRetry's `p.eval <- retry` without its ctx.Done arm (seeded fault)
+          CheckThenActIncoming,   \* FALSE in the code; TRUE = handleNewStream checks ctx.Err() and then does a bare send on incoming (seeded fault)
+          BareSendConnect,        \* TRUE = as found (D27): the direct-peer goroutines send on gs.connect without a ctx.Done arm
+          MaxRetry, MaxDirect, ConnCap,
           BatchCap, DiscCap, SendCap,
           MaxTicks, MaxRemote
 
@@ -82,10 +90,16 @@ VARIABLES pat,        \* slot -> pattern (chosen initially, then constant)
           batchQ, discQ, sendQ, valQ, incQ,   \* channel occupancies
           disc, worker, timer, ticks, writer, reader, remote, sweeper,
           inPeers, qOpen,   \* the one peer: still in p.peers / its queue is open
-          panic
+          panic,
+          retry, nretry,    \* announceRetry goroutine: "none" | "sleep" | "hand" | "done"; how many were started
+          direct, dleft,    \* goroutine queueing direct peers (Attach / directConnect): "none" | "sleep" | "send" | "done"
+          connQ, connector  \* gs.connect occupancy; one connector: "idle" | "connecting" | "done"
 
-vars == <<pat, pc, res, reply, cancelled, streamsClosed, loop, batchQ, discQ, sendQ, valQ, incQ,
-          disc, worker, timer, ticks, writer, reader, remote, sweeper, inPeers, qOpen, panic>>
+cvarsNoLoop == <<pat, pc, res, reply, cancelled, streamsClosed, batchQ, discQ, sendQ, valQ, incQ,
+                 disc, worker, timer, ticks, writer, reader, remote, sweeper, inPeers, qOpen, panic>>
+cvars == <<cvarsNoLoop, loop>>
+aux2 == <<retry, nretry, direct, dleft, connQ, connector>>
+vars == <<cvars, aux2>>
 
 Idle == [st |-> "idle", kind |-> "", who |-> 0]
 
@@ -108,6 +122,9 @@ Init ==
     /\ writer = "pop" /\ reader = "read" /\ remote = 0 /\ sweeper = "run"
     /\ inPeers = TRUE /\ qOpen = TRUE
     /\ panic = {}
+    /\ retry = "none" /\ nretry = 0
+    /\ direct = (IF MaxDirect > 0 THEN "sleep" ELSE "none") /\ dleft = MaxDirect
+    /\ connQ = 0 /\ connector = (IF MaxDirect > 0 THEN "idle" ELSE "done")
 
 \* ---------------------------------------------------------------- helpers
 Ret(i, r) == /\ pc' = [pc EXCEPT ![i] = "ret"] /\ res' = [res EXCEPT ![i] = r]
@@ -282,13 +299,17 @@ ReaderStep ==
           /\ remote' = remote + 1 /\ reader' = "hand" /\ UNCHANGED incQ
        \/ /\ reader = "read" /\ streamsClosed /\ reader' = "done" /\ UNCHANGED <<remote, incQ>>  \* Read fails; the
           \* ClosedStream notification select{incoming<-, ctx.Done} always has its ctx arm ready by then
-       \/ /\ reader = "hand" /\ incQ < 1 /\ incQ' = incQ + 1 /\ reader' = "read" /\ UNCHANGED remote
-       \/ /\ reader = "hand" /\ cancelled /\ reader' = "done" /\ UNCHANGED <<remote, incQ>>
+       \/ /\ reader = "hand" /\ ~CheckThenActIncoming /\ incQ < 1 /\ incQ' = incQ + 1 /\ reader' = "read" /\ UNCHANGED remote
+       \/ /\ reader = "hand" /\ ~CheckThenActIncoming /\ cancelled /\ reader' = "done" /\ UNCHANGED <<remote, incQ>>
+       \* seeded fault: if p.ctx.Err() != nil { return }; p.incoming <- rpc  (a check, then a bare send)
+       \/ /\ reader = "hand" /\ CheckThenActIncoming /\ cancelled /\ reader' = "done" /\ UNCHANGED <<remote, incQ>>
+       \/ /\ reader = "hand" /\ CheckThenActIncoming /\ ~cancelled /\ reader' = "bsend" /\ UNCHANGED <<remote, incQ>>
+       \/ /\ reader = "bsend" /\ incQ < 1 /\ incQ' = incQ + 1 /\ reader' = "read" /\ UNCHANGED remote
     /\ UNCHANGED <<batchQ, discQ, sendQ, valQ, disc, worker, timer, ticks, writer, sweeper, loop>>
     /\ UNCH_CALLS /\ UNCH_ENV /\ UNCH_PEER
 
 \* ---------------------------------------------------------------- environment
-Cancel ==
+CancelCore ==
     /\ ~cancelled /\ cancelled' = TRUE
     /\ UNCHANGED <<streamsClosed, loop>> /\ UNCH_CALLS /\ UNCH_Q /\ UNCH_PROCS /\ UNCH_PEER
 
@@ -300,7 +321,47 @@ CallStep(i) == Start(i) \/ Bare(i) \/ SendServed(i) \/ SendCtx(i) \/ Recv(i) \/ 
 LoopStep == LoopFinishCall \/ LoopFinishOther \/ LoopTakeBatch \/ LoopTakeMsg \/ LoopTakeIncoming
             \/ LoopTakeTimer \/ LoopExit
 LibStep == LoopStep \/ DiscStep \/ WorkerStep \/ TimerStep \/ WriterStep \/ ReaderStep
-NonCancel == (\E i \in Slots : CallStep(i)) \/ LibStep \/ CloseStreams
+CoreNonCancel == (\E i \in Slots : CallStep(i)) \/ LibStep \/ CloseStreams
+
+\* ---------------------------------------------------------------- more library goroutines
+\* announceRetry: started by the loop when an announcement meets a full peer queue; time.Sleep(1..1000 ms)
+\* (not interruptible), then select { case p.eval <- retry: ; case <-p.ctx.Done(): }
+AnnouncePats == {"SelSend_Recv", "SubscribeDisc", "SelSend"}
+SpawnRetry ==
+    /\ loop.st = "handling" /\ loop.kind = "call" /\ pat[loop.who] \in AnnouncePats
+    /\ retry = "none" /\ nretry < MaxRetry
+    /\ retry' = "sleep" /\ nretry' = nretry + 1
+    /\ UNCHANGED <<cvars, direct, dleft, connQ, connector>>
+RetryWake == /\ retry = "sleep" /\ retry' = "hand"
+             /\ UNCHANGED <<cvars, nretry, direct, dleft, connQ, connector>>
+RetryCtx == /\ retry = "hand" /\ ~BareRetry /\ cancelled /\ retry' = "done"
+            /\ UNCHANGED <<cvars, nretry, direct, dleft, connQ, connector>>
+LoopTakeRetry ==
+    /\ loop.st = "idle" /\ retry = "hand" /\ retry' = "done"
+    /\ loop' = [st |-> "handling", kind |-> "timer", who |-> 0]
+    /\ UNCHANGED <<cvarsNoLoop, nretry, direct, dleft, connQ, connector>>
+
+\* the goroutines that queue the direct peers for connection (Attach after DirectConnectInitialDelay,
+\* directConnect at heartbeats): time.Sleep, then one send on gs.connect (capacity ConnCap) per peer - BARE in
+\* the code as found (D27); the connector: select { case ci := <-gs.connect: host.Connect(..) ; case <-ctx.Done(): return }
+DirectWake == /\ direct = "sleep" /\ direct' = "send"
+              /\ UNCHANGED <<cvars, retry, nretry, dleft, connQ, connector>>
+DirectSend == /\ direct = "send" /\ dleft > 0 /\ connQ < ConnCap
+              /\ connQ' = connQ + 1 /\ dleft' = dleft - 1 /\ direct' = (IF dleft = 1 THEN "done" ELSE "send")
+              /\ UNCHANGED <<cvars, retry, nretry, connector>>
+DirectCtx == /\ direct = "send" /\ ~BareSendConnect /\ cancelled /\ direct' = "done"
+             /\ UNCHANGED <<cvars, retry, nretry, dleft, connQ, connector>>
+ConnTake == /\ connector = "idle" /\ connQ > 0 /\ connQ' = connQ - 1 /\ connector' = "connecting"
+            /\ UNCHANGED <<cvars, retry, nretry, direct, dleft>>
+ConnDone == /\ connector = "connecting" /\ connector' = "idle"      \* Connect returns: result, timeout or cancellation
+            /\ UNCHANGED <<cvars, retry, nretry, direct, dleft, connQ>>
+ConnExit == /\ connector = "idle" /\ cancelled /\ connector' = "done"
+            /\ UNCHANGED <<cvars, retry, nretry, direct, dleft, connQ>>
+Aux2Step == SpawnRetry \/ RetryWake \/ RetryCtx \/ LoopTakeRetry
+            \/ DirectWake \/ DirectSend \/ DirectCtx \/ ConnTake \/ ConnDone \/ ConnExit
+
+NonCancel == (CoreNonCancel /\ UNCHANGED aux2) \/ Aux2Step
+Cancel == CancelCore /\ UNCHANGED aux2
 Next == NonCancel \/ Cancel
 
 Spec == Init /\ [][Next]_vars
@@ -316,7 +377,7 @@ FairSpec == Spec /\ WF_vars(Next)
 Min(S) == CHOOSE x \in S : \A y \in S : x <= y
 StartEn(i) == pc[i] = "idle" /\ pat[i] # "none" /\ (i \in Post => cancelled)
 NoMoreDisc == \A i \in Slots : pat[i] = "SubscribeDisc" => pc[i] \notin {"idle", "bare"}
-NoMoreVal == /\ valQ = 0 /\ incQ = 0 /\ reader # "hand" /\ ~(loop.st = "handling" /\ loop.kind = "incoming")
+NoMoreVal == /\ valQ = 0 /\ incQ = 0 /\ reader \notin {"hand", "bsend"} /\ ~(loop.st = "handling" /\ loop.kind = "incoming")
              /\ (remote = MaxRemote \/ streamsClosed \/ reader = "done")
 
 U_Start    == {i \in Slots : StartEn(i)} # {}
@@ -341,7 +402,7 @@ ReaderClose == /\ reader = "read" /\ streamsClosed /\ reader' = "done"
                /\ UNCHANGED <<disc, worker, timer, ticks, writer, remote, sweeper, loop>>
                /\ UNCH_CALLS /\ UNCH_ENV /\ UNCH_Q /\ UNCH_PEER
 
-NextPOR ==
+UrgentStep ==
     IF U_Start THEN Start(Min({i \in Slots : StartEn(i)}))
     ELSE IF U_Val THEN ValDone(Min({i \in Slots : pc[i] = "val"}))
     ELSE IF U_Writer THEN WriterStep
@@ -350,13 +411,16 @@ NextPOR ==
     ELSE IF U_Worker THEN WorkerExit
     ELSE IF U_Disc THEN DiscExit
     ELSE IF U_Streams THEN CloseStreams
-    ELSE Next
+    ELSE FALSE
+
+AnyUrgent == U_Start \/ U_Val \/ U_Writer \/ U_Reader \/ U_Timer \/ U_Worker \/ U_Disc \/ U_Streams
+NextPOR == IF AnyUrgent THEN UrgentStep /\ UNCHANGED aux2 ELSE Next
 
 SpecPOR == Init /\ [][NextPOR]_vars
 TerminalPOR == ~ENABLED NextPOR
 \* the calls and the queues, without the result classes (VIEW of the exhaustive configurations)
 NoRes == <<pat, pc, reply, cancelled, streamsClosed, loop, batchQ, discQ, sendQ, valQ, incQ,
-           disc, worker, timer, ticks, writer, reader, remote, sweeper, inPeers, qOpen, panic>>
+           disc, worker, timer, ticks, writer, reader, remote, sweeper, inPeers, qOpen, panic, aux2>>
 
 \* ---------------------------------------------------------------- properties
 TypeOK ==
@@ -370,6 +434,7 @@ Active == {i \in Slots : pat[i] # "none"}
 AllReturned == \A i \in Active : pc[i] = "ret"
 AllDone == /\ loop.st = "exited" /\ disc = "done" /\ worker = "done" /\ timer = "done"
            /\ writer = "done" /\ reader = "done" /\ sweeper = "done"
+           /\ retry \in {"none", "done"} /\ direct \in {"none", "done"} /\ connector = "done"
 Terminal == ~ENABLED Next
 
 P_C14_Returns == Terminal => AllReturned
